@@ -92,9 +92,17 @@ func (env *Env) eval(x Expr) V {
 	case *EUn:
 		if e.Op == "&" {
 			// address of a field: a pointer value that denotes the location
+			if id, ok := e.X.(*EIdent); ok && env.pkg != nil {
+				// address of a package-level variable
+				if sp := fc.e.spkgs[env.pkg.Path()]; sp != nil {
+					if g, ok := sp.Members[id.Name].(*ssa.Global); ok {
+						return fc.val(g)
+					}
+				}
+			}
 			sel, ok := e.X.(*ESel)
 			if !ok {
-				panic(specErr("& needs a field selector"))
+				panic(specErr("& needs a field selector or a package variable"))
 			}
 			x := env.eval(sel.X)
 			pt, ok := x.Ty.Underlying().(*types.Pointer)
